@@ -279,6 +279,27 @@ class ExprCanon(ast.NodeTransformer):
                     if isinstance(node.ops[0], ast.Is):
                         return at(ast.UnaryOp(op=ast.Not(), operand=anyc), node)
                     return at(anyc, node)
+        # (A if c else B) is None  ->  (c and A is None) or (not c and B is None), a constant operand decided at once
+        if len(node.ops) == 1 and isinstance(node.left, ast.IfExp) and isinstance(node.ops[0], (ast.Is, ast.IsNot, ast.Eq, ast.NotEq)) \
+                and isinstance(node.comparators[0], ast.Constant):
+            def side(x):
+                if isinstance(x, ast.Constant) and isinstance(node.ops[0], (ast.Is, ast.IsNot)):
+                    same_ = x.value is node.comparators[0].value
+                    return ast.Constant(value=same_ if isinstance(node.ops[0], ast.Is) else not same_)
+                return self.visit(ast.Compare(left=x, ops=[node.ops[0]], comparators=[clone(node.comparators[0])]))
+            t = node.left.test
+            a, b = side(node.left.body), side(node.left.orelse)
+            left_ = a if isinstance(a, ast.Constant) and a.value is True else None
+            conj1 = t if left_ is not None else (ast.Constant(value=False) if isinstance(a, ast.Constant) else ast.BoolOp(op=ast.And(), values=[clone(t), a]))
+            nt = ast.UnaryOp(op=ast.Not(), operand=clone(t))
+            if isinstance(b, ast.Constant):
+                conj2 = nt if b.value is True else ast.Constant(value=False)
+            else:
+                conj2 = ast.BoolOp(op=ast.And(), values=[nt, b])
+            parts_ = [x for x in (conj1, conj2) if not (isinstance(x, ast.Constant) and x.value is False)]
+            if not parts_:
+                return at(ast.Constant(value=False), node)
+            return at(parts_[0] if len(parts_) == 1 else ast.BoolOp(op=ast.Or(), values=parts_), node)
         return node
 
     def visit_DictComp(self, node):
